@@ -257,6 +257,10 @@ func (b *assignmentBuilder) hasNotationUnder(lhs bmodel.Node) bool {
 	}
 	skipped := false
 	bmodel.IterateStructFields(lhs, func(member bmodel.Node) (done bool) {
+		if !b.isStructFieldAccessible(lhs, member.ObjName()) {
+			// A member the package cannot see is never copied, so no notation can be about it.
+			return false
+		}
 		skipped = b.opts.ShouldSkip(member.MatcherExpr()) ||
 			(util.IsStructType(member.ExprType()) && b.hasNotationUnder(member))
 		return skipped
